@@ -267,9 +267,12 @@ class MetadataGenerator:
                 while Null in types:
                     types.remove(Null)
 
-            meta_type = DUnion(*types)
-            if len(meta_type.types) == 1:
-                meta_type = meta_type.types[0]
+            if not types:
+                meta_type = Unknown
+            else:
+                meta_type = DUnion(*types)
+                if len(meta_type.types) == 1:
+                    meta_type = meta_type.types[0]
 
             if optional:
                 return DOptional(meta_type)
